@@ -52,6 +52,21 @@ Theorem C03_row_from_held : forall s r s', oinv s -> ostep s (ORow r) = Some s' 
 Proof. exact row_from_held. Qed.
 Print Assumptions C03_row_from_held.
 
+(* readPooledBlockRowData as a program over the pool (uncompressed rows -- spelled "none" or, in legacy
+   metadata, "" -- are the read buffer itself; a codec decodes into a second buffer and the first goes
+   straight back): when the read returns, the buffer the caller scans is held by this scan; no
+   getScanBuffer call of any scan can be handed it before release; release is enabled and afterwards
+   a second release or a late materialization from it is rejected *)
+Theorem C03_pooled_read_holds : forall k c d csize ccap dsize dcap s s' evs r,
+  pooled_read k c d csize ccap dsize dcap = (evs, r) -> oreplay s evs = Some s' ->
+  assoc_n r (o_held s') = Some (if pooled_self k then ccap else dcap) /\
+  (forall size cap, ostep s' (OGet r size cap) = None) /\
+  exists s'', oreplay s' (pooled_release k ccap dcap r) = Some s'' /\
+              assoc_n r (o_held s'') = None /\
+              (forall cap, ostep s'' (OPut r cap) = None) /\ ostep s'' (ORow r) = None.
+Proof. exact pooled_read_holds. Qed.
+Print Assumptions C03_pooled_read_holds.
+
 (* pool classes (bits.Len arithmetic): a buffer filed under class k by put has capacity >= 2^k >= any
    request served from class k, and both class indexes stay inside the pool array *)
 Theorem C03_bufclass : forall size c k, put_class c = Some k -> get_class size = GClass k -> size <= c.
